@@ -191,8 +191,28 @@ def add_sec_gene(w, rng, prot, n, nf, end_nf):
     if end_nf:
         t['tags'].append('mRNA_end_NF')
     assert G.protein_of(w2, g, t) == prot, (G.protein_of(w2, g, t), prot)
-    # which exon carries each Sec (for the evidence histogram)
-    ex = sorted(t['exons']) if g['strand'] == 1 else sorted(t['exons'], reverse=True)
+    # further isoforms that make the GENE record start upstream / end downstream of the Sec-carrying transcript
+    # (the SECT id is a gene coordinate, so gene origin != transcript origin must occur, on both strands)
+    tot = len(w2['chroms'][g['chrom']])
+    e0, eN = t['exons'][0][0], t['exons'][-1][1]
+    ext = rng.choice(['none', 'left', 'right', 'both', 'both'])
+    k = 0
+    for side in ('left', 'right'):
+        if ext not in (side, 'both'):
+            continue
+        if side == 'left' and e0 >= 4:
+            a = rng.randint(0, e0 - 4); b = rng.randint(a + 1, e0 - 2)
+            exons = [[a, b]] + [list(e) for e in t['exons']]
+        elif side == 'right' and tot - eN >= 4:
+            a = rng.randint(eN + 2, tot - 2); b = rng.randint(a + 1, tot)
+            exons = [list(e) for e in t['exons']] + [[a, b]]
+        else:
+            continue
+        k += 1
+        g['transcripts'].append({'id': 'ENST%011d.1' % (9000000 + n * 10 + k), 'protein_id': None, 'exons': exons, 'cds': None,
+                                 'frame': 0, 'tags': [], 'sec': [], 'utr': False, 'biotype': 'retained_intron'})
+    g['start'] = min(x['exons'][0][0] for x in g['transcripts'])
+    g['end'] = max(x['exons'][-1][1] for x in g['transcripts'])
     return w2
 
 def gen_sec_placement_cases(rng, names, n):
@@ -216,7 +236,10 @@ def gen_sec_placement_cases(rng, names, n):
             w = w2
             classes += cl + (['cds_start_NF'] if nf else []) + (['mRNA_end_NF'] if end_nf else []) + \
                        (['utr_features'] if w['genes'][-1]['transcripts'][0]['utr'] else ['no_utr_features']) + \
-                       (['n_sec=%d' % min(prot.count('U'), 6)])
+                       (['n_sec=%d' % min(prot.count('U'), 6)]) + \
+                       (['gene_origin_differs'] if (w['genes'][-1]['start'] != w['genes'][-1]['transcripts'][0]['exons'][0][0]
+                                                    or w['genes'][-1]['end'] != w['genes'][-1]['transcripts'][0]['exons'][-1][1])
+                        else ['gene_origin_equal'])
         out.append(dict(world=w, opts=o, sec_classes=classes))
     return out
 
@@ -244,8 +267,16 @@ def sect_ids(w):
             reqs.append(('c09_sect_id', [g['strand'], [list(e) for e in t['exons']], g['strand'], g['start'], g['end'], p]))
             meta.append((t['id'], (p - t['cds'][0]) // 3))
     out = {}
+    truth = {}
+    for g, t in coding(w):
+        for p in t.get('sec', []):
+            # generator's own ground truth in GENE coordinates (1-based position of the codon's first base),
+            # independent of the code and of the Coq model
+            truth[(t['id'], (p - t['cds'][0]) // 3)] = G.g2gene(g, G.tx2g(g, t, p)) + 1
     for (tid, u), r in zip(meta, O.call_many(reqs)):
         if r[0] == 1:
+            if truth[(tid, u)] != r[1]:
+                raise RuntimeError('SECT id: model %s vs generator ground truth %s for %s' % (r[1], truth[(tid, u)], tid))
             out.setdefault(tid, {})[r[1]] = u
     return out
 
@@ -338,16 +369,16 @@ def shrink(ctx, case):
         for gi, g in enumerate(w['genes']):
             if len(w['genes']) > 1:
                 w2 = copy.deepcopy(w); del w2['genes'][gi]
-                cands.append(dict(world=w2, opts=cur['opts']))
+                cands.append(dict(cur, world=w2))
             for ti in range(len(g['transcripts'])):
                 if len(g['transcripts']) > 1:
                     w2 = copy.deepcopy(w); del w2['genes'][gi]['transcripts'][ti]
-                    cands.append(dict(world=w2, opts=cur['opts']))
+                    cands.append(dict(cur, world=w2))
         for key, val in (('w2f', False), ('sect', False), ('k', 0)):
             if cur['opts'].get(key) != val:
                 o2 = dict(cur['opts']); o2[key] = val
                 if o2['sect'] or o2['w2f']:
-                    cands.append(dict(world=cur['world'], opts=o2))
+                    cands.append(dict(cur, opts=o2))
         if not cands:
             break
         rs = evaluate(ctx, cands, tag='c09s')
@@ -419,6 +450,10 @@ def run(ctx):
     cases += seeded
     placed = gen_sec_placement_cases(rng, names, 300 if ctx.quick else 8000)
     cases += placed
+    from harness.props import c08 as P8
+    for c in cases[len(corp):]:
+        if 'genome_case' not in c:
+            c['genome_case'] = P8.gen_genome_case(rng, c['world'])
     results = evaluate(ctx, cases)
     collide = dict(collision_stream=measure_collisions(seeded[:150 if ctx.quick else 1000]),
                    random_stream=measure_collisions(cases[len(corp):len(corp) + (150 if ctx.quick else 1000)]))
@@ -467,6 +502,7 @@ def run(ctx):
                 distribution=dist, failures=sum(1 for r in results if r['probs']), bracket=tot,
                 streams={'random_worlds': len(cases) - len(seeded) - len(placed), 'canonical_collision': len(seeded),
                          'sec_placement': len(placed)},
+                genome_case=_hist(['upper' if not c.get('genome_case') else ('all_lower' if c['genome_case'].get('all') else 'soft_masked_stretches') for c in cases]),
                 sec_placement_classes=_hist([k for c in placed for k in c.get('sec_classes', [])]), pool_clause_measured=collide, headers_checked=tot['labels'],
                 tmod_cases=len(tm), tmod_disagreements=len(tbad), corpus=[f for f, _ in corp], violations=v[:14],
                 engine_tied_by='correspondence',
